@@ -51,7 +51,7 @@ func TestMain(m *testing.M) {
 // against a harness deadlock (or a hang of the code under test that no oracle explains): when it expires the
 // case is reported as "inconclusive" (label + note in the evidence, case skipped), never as a violation.
 
-const guard = 120 * time.Second
+const guard = 45 * time.Second
 
 func wgChan(wg *sync.WaitGroup) <-chan struct{} {
 	ch := make(chan struct{})
@@ -844,26 +844,58 @@ func packetStats(stream []byte, limit int) (pkts, interleaved int) {
 	return
 }
 
+// alarm is raised (once) when a case can be judged before everything has been delivered: the connection
+// stopped with an error, or a delivery cannot be explained by what the sender's script still has to offer.
+type alarm struct {
+	once sync.Once
+	ch   chan struct{}
+	why  string
+	err  interface{} // connection error, if that is the reason
+}
+
+func (a *alarm) raise(why string, err interface{}) {
+	a.once.Do(func() { a.why, a.err = why, err; close(a.ch) })
+}
+
 // mside is the receiving half of one endpoint.
 type mside struct {
 	mu        sync.Mutex
 	delivered map[byte][][]byte
-	order     []byte // channel ids in delivery order
-	want      int    // sentinels still outstanding
-	sentinels map[byte][]byte
-	done      chan struct{}
-	failed    chan struct{}
-	err       interface{}
+	script    map[byte][][]byte // per channel: the messages the sender's script offers, in order, sentinel last
+	ptr       map[byte]int      // how far the deliveries have got in script
+	sentinel  map[byte]bool     // sentinel delivered
+	expect    map[byte]int      // number of accepted messages; known once the senders have returned
+	done      chan struct{}     // every channel complete
+	isDone    bool
+	al        *alarm
 	stopping  *int32
 }
 
-func newMside(dir int, chans []chSpec, stopping *int32) *mside {
-	s := &mside{delivered: map[byte][][]byte{}, sentinels: map[byte][]byte{}, done: make(chan struct{}), failed: make(chan struct{}), stopping: stopping}
-	for _, c := range chans {
-		s.sentinels[c.ID] = sentinel(dir, c.ID)
+func newMside(script map[byte][][]byte, al *alarm, stopping *int32) *mside {
+	return &mside{delivered: map[byte][][]byte{}, script: script, ptr: map[byte]int{}, sentinel: map[byte]bool{},
+		done: make(chan struct{}), al: al, stopping: stopping}
+}
+
+// checkDone (mu held): a channel is complete when its sentinel has arrived (nothing accepted before it can
+// still be on the way) or, once the number of accepted messages is known, when that many have arrived.
+func (s *mside) checkDone() {
+	if s.isDone {
+		return
 	}
-	s.want = len(chans)
-	return s
+	for id := range s.script {
+		if !s.sentinel[id] && (s.expect == nil || len(s.delivered[id]) < s.expect[id]) {
+			return
+		}
+	}
+	s.isDone = true
+	close(s.done)
+}
+
+func (s *mside) setExpect(e map[byte]int) {
+	s.mu.Lock()
+	s.expect = e
+	s.checkDone()
+	s.mu.Unlock()
 }
 
 func (s *mside) onReceive(id byte, msg []byte) {
@@ -873,34 +905,34 @@ func (s *mside) onReceive(id byte, msg []byte) {
 	s.mu.Lock()
 	defer s.mu.Unlock()
 	s.delivered[id] = append(s.delivered[id], cp)
-	s.order = append(s.order, id)
-	if sn, ok := s.sentinels[id]; ok && bytes.Equal(cp, sn) {
-		delete(s.sentinels, id)
-		if s.want--; s.want == 0 {
-			close(s.done)
-		}
+	sc, ok := s.script[id]
+	if !ok {
+		s.al.raise(fmt.Sprintf("delivery on channel %#x that does not exist", id), nil)
+		return
 	}
+	// The accepted messages are a subsequence of the script (TrySend may refuse some), so every delivery must
+	// match a scripted message at or after the previous match.  This only decides when to stop waiting; the
+	// verdict is the comparison with the accepted sequence afterwards.
+	j := s.ptr[id]
+	for j < len(sc) && !bytes.Equal(sc[j], cp) {
+		j++
+	}
+	if j == len(sc) {
+		s.al.raise(fmt.Sprintf("channel %#x: delivery #%d (%d bytes) matches no message the sender still had to offer", id, len(s.delivered[id])-1, len(cp)), nil)
+		return
+	}
+	s.ptr[id] = j + 1
+	if j == len(sc)-1 {
+		s.sentinel[id] = true
+	}
+	s.checkDone()
 }
 
 func (s *mside) onError(r interface{}) {
 	if atomic.LoadInt32(s.stopping) != 0 {
 		return // the harness is tearing the pair down; the peer's close is not a failure
 	}
-	s.mu.Lock()
-	defer s.mu.Unlock()
-	if s.err == nil {
-		s.err = r
-		close(s.failed)
-	}
-}
-
-func closed(ch <-chan struct{}) bool {
-	select {
-	case <-ch:
-		return true
-	default:
-		return false
-	}
+	s.al.raise("connection error", r)
 }
 
 func runMconn(t *rapid.T) {
@@ -978,7 +1010,20 @@ func runMconn(t *rapid.T) {
 	tapA, tapB := &tapConn{Conn: rawA}, &tapConn{Conn: rawB}
 
 	var stopping int32
-	recv := [2]*mside{newMside(1, pl.Chans, &stopping), newMside(0, pl.Chans, &stopping)} // recv[0] is A's receiving side (messages of dir 1)
+	al := &alarm{ch: make(chan struct{})}
+	var recv [2]*mside // recv[0] is A's receiving side: it gets the messages of direction 1
+	for d := 0; d < 2; d++ {
+		script := map[byte][][]byte{}
+		for ci, c := range pl.Chans {
+			for _, op := range scripts[d][pl.Owner[d][ci]] {
+				if op.ch == ci {
+					script[c.ID] = append(script[c.ID], op.msg)
+				}
+			}
+			script[c.ID] = append(script[c.ID], sentinel(d, c.ID))
+		}
+		recv[1-d] = newMside(script, al, &stopping)
+	}
 	mA := conn.NewMConnectionWithConfig(tapA, descs(), recv[0].onReceive, recv[0].onError, cfg)
 	mB := conn.NewMConnectionWithConfig(tapB, descs(), recv[1].onReceive, recv[1].onError, cfg)
 	teardown := func() {
@@ -1045,69 +1090,59 @@ func runMconn(t *rapid.T) {
 			}(d, g)
 		}
 	}
-	if !waitOrGuard(wgChan(&swg)) {
-		teardown()
-		inconclusive(t, fmt.Sprintf("mconn: senders did not return; plan %+v", pl))
-	}
-	if atomic.LoadInt32(&sentinelRefused) > 0 && !closed(recv[0].failed) && !closed(recv[1].failed) {
-		teardown()
-		inconclusive(t, "mconn: blocking Send of a sentinel was refused (send timeout)")
-	}
-	// ---- wait for every sentinel, or for a connection failure (the transport is reliable, so a failure is
-	// the connection's own doing and is judged below)
-	anyFailed := make(chan struct{})
-	go func() {
-		select {
-		case <-recv[0].failed:
-		case <-recv[1].failed:
-		case <-recv[0].done:
-			select {
-			case <-recv[1].done:
-				return
-			case <-recv[0].failed:
-			case <-recv[1].failed:
-			}
-		}
-		close(anyFailed)
-	}()
-	allDone := make(chan struct{})
-	go func() { <-recv[0].done; <-recv[1].done; close(allDone) }()
+	// ---- wait: senders back, then every channel complete; or an alarm; or (backstop) the guard
+	sendersDone := wgChan(&swg)
 	tm := time.NewTimer(guard)
-	outcome := ""
+	defer tm.Stop()
+	outcome := "done"
 	select {
-	case <-allDone:
-		outcome = "done"
-	case <-anyFailed:
-		outcome = "failed"
+	case <-sendersDone:
+	case <-al.ch:
+		outcome = "alarm"
 	case <-tm.C:
 		outcome = "guard"
 	}
-	tm.Stop()
-	teardown()
-	// release the two helper goroutines above whatever happened
-	for _, s := range recv {
-		s.mu.Lock()
-		if s.want > 0 {
-			s.want = 0
-			close(s.done)
-		}
-		s.mu.Unlock()
+	if outcome == "done" && atomic.LoadInt32(&sentinelRefused) > 0 {
+		outcome = "sentinel-refused"
 	}
-
-	if outcome == "failed" {
-		var e interface{}
-		for _, s := range recv {
-			s.mu.Lock()
-			if s.err != nil {
-				e = s.err
+	if outcome == "done" {
+		for d := 0; d < 2; d++ {
+			e := map[byte]int{}
+			for ci, c := range pl.Chans {
+				e[c.ID] = len(accepted[d][ci])
 			}
-			s.mu.Unlock()
+			recv[1-d].setExpect(e)
 		}
-		vstat.Violation(t, P, "mconn:connection-failed", "MConnection over a reliable transport stopped with error %v; plan %+v", e, pl)
-		return
+		for _, s := range recv {
+			if outcome != "done" {
+				break
+			}
+			select {
+			case <-s.done:
+			case <-al.ch:
+				outcome = "alarm"
+			case <-tm.C:
+				outcome = "guard"
+			}
+		}
 	}
-	if outcome == "guard" {
-		inconclusive(t, fmt.Sprintf("mconn: sentinels not delivered; plan %+v", pl))
+	teardown()
+	// a sender may still sit in a blocking Send (it gives up only after the connection's own 10 s send timeout);
+	// the accepted lists are read below, so the senders are joined first
+	if !waitOrGuard(sendersDone) {
+		inconclusive(t, fmt.Sprintf("mconn: senders did not return; plan %+v", pl))
+	}
+	switch outcome {
+	case "guard":
+		inconclusive(t, fmt.Sprintf("mconn: deliveries incomplete and no alarm; plan %+v", pl))
+	case "sentinel-refused":
+		inconclusive(t, "mconn: blocking Send of a sentinel was refused (send timeout)")
+	case "alarm":
+		if al.err != nil {
+			// the transport is reliable, so the connection failed by its own doing
+			vstat.Violation(t, P, "mconn:connection-failed", "MConnection over a reliable transport stopped with error %v; plan %+v", al.err, pl)
+			return
+		}
 	}
 
 	// ---- oracle: per direction and channel, delivered sequence == accepted sequence
@@ -1127,6 +1162,8 @@ func runMconn(t *rapid.T) {
 			}
 			key, what := "", ""
 			switch {
+			case i == len(got) && outcome == "alarm":
+				continue // the case was cut short by an alarm on another channel; nothing wrong seen here
 			case i == len(got):
 				key, what = "mconn:message-lost", fmt.Sprintf("message #%d (%d bytes) was accepted but never delivered", i, len(want[i]))
 			case i == len(want):
@@ -1152,6 +1189,11 @@ func runMconn(t *rapid.T) {
 			}
 		}
 		rs.mu.Unlock()
+	}
+	if outcome == "alarm" {
+		// cannot happen: an unexplainable delivery always shows up in the comparison above
+		vstat.Violation(t, P, "mconn:message-not-intact", "%s; plan %+v", al.why, pl)
+		return
 	}
 
 	// ---- classification
